@@ -1,18 +1,25 @@
+import CffiVerif.Generated.CompareExprs
+
 /-!
 # Model of `cdata_richcompare`, `cdata_hash` and of Python's dispatch around them (C17)
 
-Mirrors `/repo/src/c/_cffi_backend.c`:
+Mirrors `/repo/src/c/_cffi_backend.c`.  Every flag test, every comparison of
+the pointer-like branch, the operand order of the delegated comparison and the
+pointer that is hashed are *not* written here: they are the definitions of
+`Generated/CompareExprs.lean`, re-extracted from the C source on every check
+run (`translate/c17_exprs.py`); the control structure below is what that
+translator matches textually.
 
 * `cdata_richcompare(v, w, op)` (the `tp_richcompare` slot of every cdata type):
-  `v_is_ptr = !(v->c_type->ct_flags & CT_PRIMITIVE_ANY)`, same for `w` when it is a
-  cdata.  Both pointer-like (pointer, array, struct, union, function pointer):
-  compare the `c_data` addresses as `char *` with the six operators.  Exactly one
-  pointer-like: `Py_NotImplemented`.  Otherwise every cdata operand is replaced
-  by `convert_to_object(...)` (first `v`, then `w`) and the result is
-  `PyObject_RichCompare(aa[0], aa[1], op)`; a `long double` converts to a cdata
-  again and raises `NotImplementedError`.
-* `cdata_hash(v)`: primitive whose conversion is a Python object: that object's
-  hash; otherwise (`long double`, pointer-like) `_Py_HashPointer(c_data)`.
+  `v_is_ptr = !(v->c_type->ct_flags & CT_PRIMITIVE_ANY)` (`Gen.vIsPtrTest`), `w_is_ptr`
+  the same for a cdata `w` (`Gen.wIsPtrTest`).  `Gen.bothPtr`: compare the `c_data`
+  addresses as `char *` with the six operators (`Gen.cmp_Py_*`).  `Gen.onePtr`:
+  `Py_NotImplemented`.  Otherwise every cdata operand is replaced by
+  `convert_to_object(...)` (first `v`, then `w`) and the result is
+  `PyObject_RichCompare(aa[Gen.delegateLeft], aa[Gen.delegateRight], op)`; a cdata that
+  converts to a cdata again (`long double`) raises `NotImplementedError`.
+* `cdata_hash(v)`: `Gen.hashPrimTest` and the conversion is a Python object: that
+  object's hash; otherwise `_Py_HashPointer(Gen.hashedPointer …)`.
 
 CPython's `do_richcompare` (Objects/object.c) is modelled as well, so that the
 statement "`a == b` implies `hash(a) == hash(b)`" is about what Python evaluates:
@@ -33,6 +40,7 @@ cdata made by `ffi.cast` holds 0 or 1; the `ValueError` branch of
 memory, which yields no cdata); comparison results other than `True`/`False`.
 -/
 namespace CffiVerif.Compare
+open CffiVerif.Generated
 
 inductive Op where
   | eq | ne | lt | le | gt | ge
@@ -71,13 +79,20 @@ structure PyContract {V : Type} (P : PyOps V) : Prop where
   /-- a built-in value's own comparison slot does not know cdata -/
   foreign : ∀ op v, P.vsForeign op v = .notImplemented
 
-inductive CData (V : Type) where
-  /-- primitive (`CT_PRIMITIVE_ANY`) converting to the Python value `v` -/
-  | prim (v : V)
-  /-- `long double`: converts to a cdata again; `addr` is its `c_data` -/
-  | longdouble (addr : Nat)
-  /-- pointer / array / struct / union / function pointer with `c_data = addr` -/
-  | ptrlike (addr : Nat)
+/-- What `convert_to_object(c_data, c_type)` returns for a primitive cdata. -/
+inductive Conv (V : Type) where
+  /-- a Python value -/
+  | value (v : V)
+  /-- a cdata again (`long double`) -/
+  | cdataAgain
+  deriving Repr
+
+/-- A cdata object: `c_type->ct_flags`, `c_data`, and (consulted only when the
+flags say "primitive") the result of `convert_to_object`. -/
+structure CData (V : Type) where
+  flags : Nat
+  addr : Nat
+  conv : Conv V
   deriving Repr
 
 inductive Obj (V : Type) where
@@ -93,36 +108,37 @@ def Obj.isCData {V} : Obj V → Bool
   | .cdata _ _ => true
   | .py _ _ => false
 
-def CData.isPtr {V} : CData V → Bool
-  | .ptrlike _ => true
-  | _ => false
+/-- Pointer-like = no `CT_PRIMITIVE_*` base flag (hand-written reading of the
+generated tests; `vIsPtrTest_eq` / `wIsPtrTest_eq` / `hashPrimTest_eq` in
+`Props/C17.lean` show the generated tests mean exactly this). -/
+def isPtrFlags (flags : Nat) : Bool :=
+  flags &&& (CompareExprs.CT_PRIMITIVE_SIGNED ||| CompareExprs.CT_PRIMITIVE_UNSIGNED |||
+    CompareExprs.CT_PRIMITIVE_CHAR ||| CompareExprs.CT_PRIMITIVE_FLOAT ||| CompareExprs.CT_PRIMITIVE_COMPLEX) == 0
 
+/-- `v_is_ptr` of the C code. -/
+def CData.isPtr {V} (c : CData V) : Bool := CompareExprs.vIsPtrTest c.flags
+
+/-- `w_is_ptr` of the C code. -/
 def Obj.isPtr {V} : Obj V → Bool
-  | .cdata _ c => c.isPtr
-  | .py _ _ => false
+  | .cdata _ c => CompareExprs.wIsPtrTest true c.flags
+  | .py _ _ => CompareExprs.wIsPtrTest false 0
 
-/-- `c_data`, for the kinds whose address matters. -/
-def CData.addr {V} : CData V → Nat
-  | .ptrlike a => a
-  | .longdouble a => a
-  | .prim _ => 0
-
-/-- The six C operators on two `char *` (unsigned addresses). -/
+/-- The six C operators on two `char *`, as extracted. -/
 def addrCmp (op : Op) (a b : Nat) : Bool :=
   match op with
-  | .eq => decide (a = b)
-  | .ne => decide (a ≠ b)
-  | .lt => decide (a < b)
-  | .le => decide (a ≤ b)
-  | .gt => decide (a > b)
-  | .ge => decide (a ≥ b)
+  | .eq => CompareExprs.cmp_Py_EQ a b
+  | .ne => CompareExprs.cmp_Py_NE a b
+  | .lt => CompareExprs.cmp_Py_LT a b
+  | .le => CompareExprs.cmp_Py_LE a b
+  | .gt => CompareExprs.cmp_Py_GT a b
+  | .ge => CompareExprs.cmp_Py_GE a b
 
 /-- `convert_to_object` inside `cdata_richcompare`, followed by the
 `CData_Check(w)` test. -/
-def CData.toValue {V} : CData V → Except ErrKind V
-  | .prim v => .ok v
-  | .longdouble _ => .error .notImplementedError
-  | .ptrlike _ => .error .other          -- never asked: pointer-like operands do not reach the conversion
+def CData.toValue {V} (c : CData V) : Except ErrKind V :=
+  match c.conv with
+  | .value v => .ok v
+  | .cdataAgain => .error .notImplementedError
 
 def Obj.toValue {V} : Obj V → Except ErrKind V
   | .cdata _ c => c.toValue
@@ -132,20 +148,23 @@ def resOf : Except ErrKind Bool → Res
   | .ok b => .bool b
   | .error k => .raise k
 
+/-- `aa[i]` for `i` = 0 or 1. -/
+def sel {α} (i : Nat) (a0 a1 : α) : α := if i = 0 then a0 else a1
+
 /-- `cdata_richcompare(v, w, op)`. -/
 def richcompare {V} (P : PyOps V) (op : Op) (v : CData V) (w : Obj V) : Res :=
-  if v.isPtr && w.isPtr then
+  if CompareExprs.bothPtr v.isPtr w.isPtr then
     match w with
     | .cdata _ c => .bool (addrCmp op v.addr c.addr)
     | .py _ _ => .notImplemented     -- unreachable: a non-cdata is never pointer-like
-  else if v.isPtr || w.isPtr then .notImplemented
+  else if CompareExprs.onePtr v.isPtr w.isPtr then .notImplemented
   else
     match v.toValue with
     | .error k => .raise k
     | .ok a =>
       match w.toValue with
       | .error k => .raise k
-      | .ok b => resOf (P.cmp op a b)
+      | .ok b => resOf (P.cmp op (sel CompareExprs.delegateLeft a b) (sel CompareExprs.delegateRight a b))
 
 /-- `_Py_HashPointer` on a 64-bit platform: rotate right by 4, reinterpret as
 signed, `-1` is reserved. -/
@@ -154,15 +173,17 @@ def hashPointer (addr : Nat) : Int :=
   let x : Int := if y < 2 ^ 63 then Int.ofNat y else Int.ofNat y - 2 ^ 64
   if x = -1 then -2 else x
 
-/-- `cdata_hash(v)`. -/
-def cdataHash {V} (P : PyOps V) : CData V → Except ErrKind Int
-  | .prim v => P.hash v
-  | .longdouble a => .ok (hashPointer a)
-  | .ptrlike a => .ok (hashPointer a)
+/-- `cdata_hash(v)`; `self` is the address of the cdata object itself. -/
+def cdataHash {V} (P : PyOps V) (self : Nat) (c : CData V) : Except ErrKind Int :=
+  if CompareExprs.hashPrimTest c.flags then
+    match c.conv with
+    | .value v => P.hash v
+    | .cdataAgain => .ok (hashPointer (CompareExprs.hashedPointer c.addr self))
+  else .ok (hashPointer (CompareExprs.hashedPointer c.addr self))
 
-/-- `hash(x)` for either kind of object. -/
+/-- `hash(x)` for either kind of object (the object id stands for its address). -/
 def objHash {V} (P : PyOps V) : Obj V → Except ErrKind Int
-  | .cdata _ c => cdataHash P c
+  | .cdata o c => cdataHash P o c
   | .py _ v => P.hash v
 
 /-- The `tp_richcompare` slot of `a`'s type applied to `(a, b, op)`; only used
@@ -194,6 +215,20 @@ def binop {V} (P : PyOps V) (op : Op) (a b : Obj V) (bSub : Bool) : Except ErrKi
     | .notImplemented => k ()
   if bSub then reflected fun _ => direct fun _ => fallback
   else direct fun _ => reflected fun _ => fallback
+
+/-! ## the kinds of cdata the harness builds -/
+
+/-- pointer / array / struct / union / function pointer with the given base flag. -/
+def CData.ptrlike {V} (addr : Nat) (baseflag : Nat := CompareExprs.CT_POINTER) : CData V :=
+  ⟨baseflag, addr, .cdataAgain⟩
+
+/-- primitive converting to the Python value `v`. -/
+def CData.prim {V} (v : V) (baseflag : Nat := CompareExprs.CT_PRIMITIVE_SIGNED) : CData V :=
+  ⟨baseflag, 0, .value v⟩
+
+/-- `long double`. -/
+def CData.longdouble {V} (addr : Nat) : CData V :=
+  ⟨CompareExprs.CT_PRIMITIVE_FLOAT ||| CompareExprs.CT_IS_LONGDOUBLE, addr, .cdataAgain⟩
 
 /-! ## a concrete instance: Python `int` values -/
 
